@@ -602,6 +602,12 @@ impl Cursor for BlockCursor {
             return Err(corruption_block_with_zero_restarts());
         }
 
+        // An empty block has nothing to land on.
+        if self.block.restarts_boundary == 0 {
+            self.position = CursorPosition::Last;
+            return Ok(());
+        }
+
         // Binary search to the correct restart point.
         let mut left: usize = 0usize;
         let mut right: usize = self.block.num_restarts - 1;
@@ -735,6 +741,11 @@ impl Cursor for BlockCursor {
     fn next(&mut self) -> Result<(), SError> {
         // We start with the first block.
         if let CursorPosition::First = self.position {
+            // An empty block has nothing to land on.
+            if self.block.restarts_boundary == 0 {
+                self.position = CursorPosition::Last;
+                return Ok(());
+            }
             self.seek_restart(0)?;
             return Ok(());
         }
